@@ -38,7 +38,8 @@ Inductive op :=
 | ImulX (n : Z)                           (* l *= Idx(n) *)
 (* an argument that is not iterable (None, 0, False) where an iterable is required: TypeError in the built-in list *)
 | SetSliceN (sl : slice)                  (* l[a:b:c] = None *)
-| ExtendN.                                (* l.extend(None) *)
+| ExtendN                                 (* l.extend(None) *)
+| SortPos.                                (* l.sort(None, True) / l.sort(len): key and reverse are keyword-only *)
 
 (* the operations whose integer argument is such an object ... *)
 Definition xkey (o : op) : bool := match o with InsertX _ _ | PopX _ | ImulX _ => true | _ => false end.
@@ -206,6 +207,7 @@ Section WithValidator.
                                                               l.338 iterating the value raises TypeError *)
         match getitem_slice l sl with Raise e => raise e l | Ok _ => raise TypeError l end
     | ExtendN => raise TypeError l                         (* l.385 *)
+    | SortPos => raise TypeError l                         (* l.476 `def sort(self, *, key=None, reverse=False)` *)
     end.
 
   (* insert / pop / *= begin with operator.index(argument) (l.302, l.403, l.434 after the repair of F26) *)
@@ -241,6 +243,7 @@ Section WithValidator.
     | PopX _ => Ok (Some (Z.max (len - 1) 0))               (* l.784 *)
     | ImulX n => Ok (Some (Z.max 0 (len * n)))              (* operator.index(value) first, then as for an int *)
     | SetSliceN _ | ExtendN => Raise TypeError              (* l.702 / l.746: list(value) fails first *)
+    | SortPos => Ok None                                    (* sort is not overridden *)
     end.
 
   Definition tlo_step0 (minlen : Z) (maxlen : option Z) (l : list Z) (o : op) : obs :=
@@ -276,7 +279,8 @@ Definition tl_copy (vld : Z -> option Z) (k : copykind) (l : list Z) : res (list
 (* The validators of the correspondence harness (atoms: 0..99 the ints, 100+i the
    string "i", 200.. objects that no Int/CInt validator accepts, 300+i the float i.0,
    1000*j + v the j-th distinct object with value v). *)
-Inductive vkind := VAll | VInt | VCInt | VInc.   (* VInc: a non-idempotent conversion, x -> x + 1 on 0..89 *)
+Inductive vkind := VAll | VInt | VCInt | VInc     (* VInc: a non-idempotent conversion, x -> x + 1 on 0..89 *)
+                | VInst.                           (* Instance("Cell"), a forward reference: None (200) or a Cell (203) *)
 Definition vld_of (k : vkind) (x : Z) : option Z :=
   match k with
   | VAll => Some x
@@ -286,4 +290,5 @@ Definition vld_of (k : vkind) (x : Z) : option Z :=
              else if (100 <=? v) && (v <? 200) then Some (v - 100)
              else if (300 <=? v) && (v <? 400) then Some (v - 300) else None
   | VInc => if (0 <=? x) && (x <? 90) then Some (x + 1) else None
+  | VInst => if (x =? 200) || (x =? 203) then Some x else None
   end.
